@@ -2,7 +2,7 @@
    runs of the real code (state before / after the call, shadow CropSharedVars, oracle values) and
    compares every output bit for bit. *)
 From Coq Require Import ZArith List Bool Floats.
-From Hermes Require Import Num CropModel CropNModel DevModel RootDistModel.
+From Hermes Require Import Num CropModel CropNModel DevModel RootDistModel RadiaModel.
 Import ListNotations.
 
 (* one evaluation of the N-content functions: inputs with oracle values, the arguments the harness passed to
@@ -169,4 +169,23 @@ Fixpoint assim_mismatches (i : nat) (l : list assim_obs) : list (nat * nat) :=
   | [] => []
   | c :: r => let v := assim_check c in
               if Nat.eqb v 0 then assim_mismatches (S i) r else (i, v) :: assim_mismatches (S i) r
+  end.
+
+(* the head of radia() on one traced day (RadiaModel.rd_light): inputs, oracle values by call site as the harness' shadow recorded them,
+   and the recorded locals AMAX, EFFE, DLE, DGAC, DGAO; the arguments the code passed to the two logarithms and the two saturation
+   exponentials.  1 = AMAX / EFFE / DLE, 2 = DGAC / DGAO, 4 = an argument *)
+Record radia_obs := { rao_in : rd_in (T:=float); rao_o_amax : float; rao_o_effe : float; rao_o_dle : float;
+                      rao_o_dgac : float; rao_o_dgao : float;
+                      rao_xarg : float; rao_yarg : float; rao_ecarg : float; rao_eoarg : float }.
+Definition radia_check (o : radia_obs) : nat :=
+  let r := rd_light (rao_in o) in
+  ((if float_same (ro_amax r) (rao_o_amax o) && float_same (ro_effe r) (rao_o_effe o) && float_same (ro_dle r) (rao_o_dle o) then 0 else 1)
+   + (if float_same (ro_dgac r) (rao_o_dgac o) && float_same (ro_dgao r) (rao_o_dgao o) then 0 else 2)
+   + (if float_same (ro_xarg r) (rao_xarg o) && float_same (ro_yarg r) (rao_yarg o)
+         && float_same (ro_ecarg r) (rao_ecarg o) && float_same (ro_eoarg r) (rao_eoarg o) then 0 else 4))%nat.
+Fixpoint radia_mismatches (i : nat) (l : list radia_obs) : list (nat * nat) :=
+  match l with
+  | [] => []
+  | c :: r => let v := radia_check c in
+              if Nat.eqb v 0 then radia_mismatches (S i) r else (i, v) :: radia_mismatches (S i) r
   end.
